@@ -176,30 +176,7 @@ impl Campaign for C02c {
                     continue;
                 }
             };
-            let mut diffs = vec![];
-            if head.method != m.method {
-                diffs.push(format!("method {:?} != sent {:?}", head.method, m.method));
-            }
-            if head.url != m.target {
-                diffs.push(format!("target differs: got {:?} sent {:?}", trunc(&head.url), trunc(&m.target)));
-            }
-            if head.version != m.version {
-                diffs.push(format!("version {:?} != sent {:?}", head.version, m.version));
-            }
-            if head.headers.len() != m.headers.len() {
-                diffs.push(format!("{} headers delivered, {} sent", head.headers.len(), m.headers.len()));
-            } else {
-                for (k, (a, b)) in head.headers.iter().zip(m.headers.iter()).enumerate() {
-                    if !a.0.eq_ignore_ascii_case(&b.0) {
-                        diffs.push(format!("header #{} name {:?} != sent {:?}", k, a.0, b.0));
-                        break;
-                    }
-                    if a.1 != b.1 {
-                        diffs.push(format!("header #{} ({}) value {:?} != sent {:?}", k, b.0, trunc(&a.1), trunc(&b.1)));
-                        break;
-                    }
-                }
-            }
+            let mut diffs = head_diffs(&head, m);
             let want_peer = if sc.knobs.unix_listener { None } else { out.obs.conns[ci].peer.clone() };
             if head.remote_addr != want_peer {
                 diffs.push(format!("remote_addr {:?} != client address {:?} (unix listener: {})", head.remote_addr, want_peer, sc.knobs.unix_listener));
